@@ -170,7 +170,7 @@ def obligations(tier):
             for at in range(0, n - 1):
                 for k in kinds:
                     # the window: two adjacent gaps for the cheap kinds (three in the thorough tier), one for the rest
-                    win = {"ws0": 3, "ws1": 2, "cmt": 2}.get(k, 1) + (0 if quick else 1)
+                    win = {"ws0": 3, "ws1": 2, "cmt": 2}.get(k, 1) + (0 if quick or k in ("cmt2", "hash2") else 1)
                     if win > 1 and at % 2 and quick:
                         continue
                     if quick and ((k == "cmt2" and at % 5) or (k in ("cmtws", "hash2") and at % 2)):
